@@ -451,7 +451,14 @@ impl ExpressionParser {
                             Operator::Assign => 16,
                             Operator::AssignUndefined => 16,
                         };
-                        if prio <= best_idx_prio {
+                        // Binary operators of the same priority are grouped from left to right
+                        // ("10 - 3 - 2" is "(10 - 3) - 2"): the first one is folded first.
+                        // The prefix operator "!" and assignments group from right to left.
+                        let right_to_left = matches!(
+                            operator,
+                            Operator::Not | Operator::Assign | Operator::AssignUndefined
+                        );
+                        if prio < best_idx_prio || (right_to_left && prio == best_idx_prio) {
                             best_idx = si;
                             best_idx_prio = prio;
                         }
